@@ -4,23 +4,30 @@ Nothing here imports fastparquet: the module only builds pandas objects and plai
 
 Public surface
 --------------
-DTYPES, ROWS, NULLS                      the axes of C01's quantifier
+DTYPES, ROWS, NULLS, MIXED, INDEX_KINDS   the axes of C01's quantifier
 series(dtype, n, nulls, name='x')        one column, deterministic values (boundary values first)
-frame_from_features(features)            rebuild the frame of a case from its features (worker / replay side)
-frames(tier, seed)                       yields (features, DataFrame): single-column frames over
-                                         DTYPES x ROWS x NULLS, multi-column mixed frames, index frames
+frame_from_features(features)            rebuild the frame of a case from its features {dtype, rows, nulls, index}
+                                         (worker / replay side; dtype may be a MIXED name or 'sampled')
+frame_specs(tier) / frames(tier, seed)   feature dicts / (features, DataFrame): single-column frames over
+                                         DTYPES x ROWS x NULLS, multi-column mixed frames, index frames,
+                                         and (thorough) seed-driven sampled frames
+derived_features(features)               kinds / optional / index_stored, deterministic from the other features
 covering_array(axes, strength)           greedy t-wise covering array (list of dicts)
-option_tuples(tier, seed)                yields (features, kwargs, globals); pairwise (quick) /
-                                         3-wise (thorough) over the write options of C01.  kwargs values
-                                         that need the frame (per-column dicts/lists, row_group_offsets,
-                                         MAX_PAGE_SIZE for a requested page count) are PerFrame markers;
-bind_options(opt_features, df)           resolves them for a concrete frame -> (kwargs, globals)
+option_features(tier)                    the option tuples as feature dicts (pairwise quick, 3-wise thorough)
+option_tuples(tier, seed)                yields (features, kwargs, globals); kwargs values that need the frame
+                                         (per-column dicts/lists, row_group_offsets, MAX_PAGE_SIZE for a requested
+                                         page count) are PerFrame markers ...
+bind_options(opt_features, df)           ... resolved for a concrete frame -> (kwargs, globals)
 writer_globals(fp, MAX_PAGE_SIZE=..., DATAPAGE_VERSION=...)   context manager: set / restore the two
                                          module globals of fastparquet.writer
-data_pages(pf)                           the real number of data pages per column chunk (max), from the footer
+data_pages(pf), chunk_pages(pf)          the real number of data pages (max / per chunk), from the footer
+page_layout(df, kwargs, globals), layout_feature(...)   model of the page layout from the documented paging
+                                         rule, and the layout facts used in finding signatures
+poison_heap(nrows)                       make reads of never-written np.empty memory deterministic
+crashproof_map(fn, items, init=...)      forked worker pool that survives (and reports) a dying worker
 
-Enumerations never depend on the seed; the seed only drives the *values* of the extra sampled frames
-(features kind='sampled', thorough tier).
+Enumerations never depend on the seed; the seed only drives the extra sampled frames of the thorough tier
+(features dtype='sampled', sample=k, seed=seed).
 """
 import contextlib
 import itertools
